@@ -81,7 +81,8 @@ def normalSurface (skl : List (List (List K))) : Option (List K × List K) :=
 quantity: as in `Lin.vectorNormalize` the value the implementation obtained for it is an INPUT (`mag…`; the driver ops
 `tancn` / `tansn` / `nrmsn` receive it from the harness).  `none` = the `ValueError` of `vector_normalize`
 ("The magnitude of the vector is zero": `magnitude > 0` fails) or of `vector_cross`.  The 18-decimals print / parse of
-`vector_normalize` is the identity on exact numbers. -/
+`vector_normalize` is NOT modelled: in the exact mode of the harness the number type ignores the format spec (the step is the
+identity there only for that reason and is not exercised by the correspondence); in doubles it rounds to 18 decimals. -/
 
 /-- `tangent_curve_single(obj, u, normalize=True)`: `(ders[0], vector_normalize(ders[1]))` -/
 def tangentCurveN (ders : List (List K)) (mag : K) : Option (List K × List K) :=
